@@ -131,6 +131,8 @@ type Machine struct {
 	divMemo     map[[2]*Term][2]*Term
 	fmtOpaque   int
 	timerRace   bool
+	posCount    map[string]int
+	delays      []DelaySite
 }
 
 type MachineStats struct {
@@ -162,6 +164,16 @@ type Violation struct {
 	PathCond []string
 	Prefix  []Choice
 	Preempts int // context switches forced by the explorer on this path (schedule-dependent violation if > 0)
+	// Delays: where the native replay has to hold a goroutine back to follow the explored schedule
+	Delays []DelaySite
+}
+
+// DelaySite: the Occ-th execution of the synchronisation operation at File:Line is delayed by Ms.
+type DelaySite struct {
+	File string `json:"file"`
+	Line int    `json:"line"`
+	Occ  int    `json:"occ"`
+	Ms   int    `json:"ms"`
 }
 
 type NdVal struct {
@@ -349,7 +361,7 @@ func (m *Machine) callFn(caller *frame, fn *ssa.Function, args []Value, env []Va
 		m.Stats.Funcs[name]++
 	}
 	info := m.info(fn)
-	fr := &frame{fn: fn, info: info, regs: make([]Value, info.n), env: env, caller: caller}
+	fr := &frame{fn: fn, info: info, regs: make([]Value, info.n), env: env, caller: caller, callPos: m.curPos}
 	for i, p := range fn.Params {
 		fr.regs[info.idx[p]] = args[i]
 	}
